@@ -248,7 +248,10 @@ def run_scenario(sc):
     pars = [pgabc.Parameter(p["name"], p["dist"], *p["args"], logscale=bool(p["log"])) for p in sc["pars"]]
     np.random.seed(sc["seed"])
     kw = dict(sigma=1.0) if sc["loss"] == "NormalLoss" else {}
-    obj = pgabc.create_loss(sc["loss"], pars, ode, list(M["x0"]), np.float64(t[0]), t[1:], y, list(sc["obs"]), **kw)
+    # the initial state as the caller's own float array (kept, and compared after the run: inferring an initial condition tries
+    # other values but must not write them into the caller's data)
+    x0_buf = np.array(M["x0"], dtype=float)
+    obj = pgabc.create_loss(sc["loss"], pars, ode, x0_buf, np.float64(t[0]), t[1:], y, list(sc["obs"]), **kw)
     abc = pgabc.ABC(obj, pars, constraint=tuple(sc["constraint"]) if sc.get("constraint") else None)
     log = Log()
     # --- wrappers (instance attributes and one module global; nothing in the repository is touched)
@@ -309,11 +312,20 @@ def run_scenario(sc):
     finally:
         abcmod.np = saved_np
         logging.disable(logging.NOTSET)
+    if out and not np.array_equal(x0_buf, np.array(M["x0"], dtype=float)):
+        out[0]["x0_modified"] = x0_buf.tolist()
     return out, y
 
 
 # ------------------------------------------------------------------ the property, stated directly on the implementation
 def judge(sc, recs, y, deep=True):
+    if recs and recs[0].get("x0_modified") is not None:
+        return [("caller-x0-modified", "the x0 array handed to create_loss reads %s after the ABC run (it was %s)"
+                 % (recs[0]["x0_modified"], MODELS[sc["model"]]["x0"]))]
+    return _judge(sc, recs, y, deep)
+
+
+def _judge(sc, recs, y, deep=True):
     """returns a list of (cls, what); deep=False skips the (slower) independent integrations"""
     bad = []
     prev_final = None
